@@ -91,6 +91,15 @@ func c02seq(idx int) []resp.Value {
 		at := r.Intn(len(vs) + 1)
 		vs = append(vs[:at:at], append([]resp.Value{big}, vs[at:]...)...)
 		vs = append(vs, resp.Cmd("GET", "after-the-large-value"))
+		// in half of them one or two further large bulks of OTHER sizes follow later in the sequence (larger and
+		// smaller than the first, in any order): whatever a parser keeps from one large value to the next
+		// (a grown buffer, a remembered size) meets a value it does not fit
+		if r.Bool() {
+			for k := 0; k < 1+r.Intn(2); k++ {
+				size2 := rng.Pick(r, []int{65537, 66000, 70000, 100000, 131072, 150000, 200000, 262144, 300000})
+				vs = append(vs, resp.Bulk(r.Bytes(size2)), resp.Cmd("GET", fmt.Sprint("after-large-value-", k+2)))
+			}
+		}
 	}
 	vs = append(vs, resp.Int(int64(idx)))
 	// what the stream ends in decides which read meets the end of stream: a line, a bulk payload, or a command
